@@ -39,10 +39,23 @@ def show_recs(rs: list[bytes]) -> str:
 
 
 # ---------------------------------------------------------------- implementation side
+_DISK: list[Any] = []      # when non-empty: [directory]; sources are then real files opened 'rb' (a BufferedReader), not BytesIO
+
+
+def open_source(file: bytes):
+    if not _DISK:
+        return io.BytesIO(file)
+    import os
+    path = os.path.join(_DISK[0], "records.bin")
+    with open(path, "wb") as f:
+        f.write(file)
+    return open(path, "rb")
+
+
 def impl_n(file: bytes, lens: list[int]) -> tuple[list[bytes], str, int]:
     import stingray.estruct as E
 
-    src = io.BytesIO(file)
+    src = open_source(file)
     rdr = E.RECFM_N(src)
     out: list[bytes] = []
     end = "exhausted"
@@ -76,7 +89,7 @@ def collect(it, limit: int) -> tuple[list[bytes], str | None]:
 def impl_iter(kind: str, file: bytes, lrecl: int | None = None) -> str:
     import stingray.estruct as E
 
-    src = io.BytesIO(file)
+    src = open_source(file)
     limit = len(file) + 8
     if kind == "F":
         rs, err = collect(E.RECFM_F(src, lrecl).record_iter(), limit)
@@ -231,6 +244,47 @@ def explore(ck: Check, scale: int) -> None:
             show_recs(recs1), "RECFM_VB.record_iter", "VB/reblocked")
         if i < 3:
             ck.sample(inpb)
+
+    # the same readers over real files opened 'rb' (buffered; the records are larger than, equal to and smaller than the buffer)
+    import tempfile
+    with tempfile.TemporaryDirectory(prefix="verif_c05_") as td:
+        _DISK.append(td)
+        try:
+            for lrecl, k in [(20000, 5), (137, 1000), (8192, 6), (8193, 6), (1, 9000), (32760, 3)]:
+                recs = [rec_bytes(rng, lrecl, j) for j in range(k)]
+                file = b"".join(recs)
+                for kind, want in (("F", recs), ("Frdw", [word(len(r) + 4) + r for r in recs])):
+                    ck.case(("disk", kind, lrecl, k), feature=f"disk/{kind}")
+                    ck.oracle_evaluations += 1
+                    got = impl_iter(kind, file, lrecl)
+                    if got != show_recs(want):
+                        ck.fail(f"RECFM_F.{'record_iter' if kind == 'F' else 'rdw_iter'}", f"disk/{kind}: records read back from a real file differ "
+                                f"from records written ({k} records of {lrecl} bytes)", {"recfm": "F", "lrecl": lrecl, "records": k, "source": "file on disk"})
+            for lens in ([20000, 3, 32756, 1, 9000, 9000, 9000], [100] * 400, [8188, 8188, 8192, 5]):
+                recs = [rec_bytes(rng, n, j) for j, n in enumerate(lens)]
+                blocks = gen_blocks(rng, recs)
+                for kind, file, want in (("V", write_v(recs), recs), ("Vrdw", write_v(recs), [word(len(r) + 4) + r for r in recs]),
+                                         ("VB", write_vb(blocks), recs), ("VBrdw", write_vb(blocks), [word(len(r) + 4) + r for r in recs]),
+                                         ("VBbdw", write_vb(blocks), [word(len(write_v(b)) + 4) + write_v(b) for b in blocks])):
+                    ck.case(("disk", kind, tuple(lens)), feature=f"disk/{kind}")
+                    ck.oracle_evaluations += 1
+                    got = impl_iter(kind, file)
+                    if got != show_recs(want):
+                        name = {"V": "RECFM_V.record_iter", "Vrdw": "RECFM_V.rdw_iter", "VB": "RECFM_VB.record_iter", "VBrdw": "RECFM_VB.rdw_iter",
+                                "VBbdw": "RECFM_VB.bdw_iter"}[kind]
+                        ck.fail(name, f"disk/{kind}: records read back from a real file differ from records written",
+                                {"recfm": kind, "lens": lens, "source": "file on disk"})
+            for lens in ([20000, 20000, 20000, 20000], [5, 32760, 5, 32760], [100] * 500, [9000, 1, 9000]):
+                recs = [rec_bytes(rng, n, j) for j, n in enumerate(lens)]
+                file = b"".join(recs)
+                ck.case(("disk", "N", tuple(lens)), feature="disk/N")
+                ck.oracle_evaluations += 1
+                rs, end, tell = impl_n(file, lens)
+                if f"{show_recs(rs)} end={end} tell={tell}" != f"{show_recs(recs)} end=exhausted tell={len(file)}":
+                    ck.fail("RECFM_N.record_iter", "disk/N: records read back from a real file differ from records written",
+                            {"recfm": "N", "lens": lens, "source": "file on disk"})
+        finally:
+            _DISK.clear()
 
     # malformed stream: model and code must agree on the error kind (not part of the property, validates the model)
     for i in range(20 * scale):
